@@ -7,3 +7,4 @@ import InToto.Properties.C05
 #print axioms InToto.C05.acceptance_implies_agreement
 #print axioms InToto.C05.disagreement_in_any_step_fails
 #print axioms InToto.C05.rules_see_the_agreed_link
+#print axioms InToto.C05.facts_reduce_before_rules
